@@ -59,6 +59,7 @@ type Exec struct {
 	qseen     map[[2]int]bool
 	interest  []*Term
 	interestSeen map[int]bool
+	interestSorts map[int]map[string]bool
 	ninst     int
 }
 
@@ -146,8 +147,10 @@ func (x *Exec) assumeTypeB(st *State, v *Term, t types.Type, bound *Term) {
 	if x.boundOf == nil {
 		x.boundOf = map[int]*Term{}
 	}
-	if _, ok := x.boundOf[v.id]; !ok {
+	if old, ok := x.boundOf[v.id]; !ok {
 		x.boundOf[v.id] = bound
+	} else {
+		_ = old
 	}
 	key := [2]int{v.id, bound.id}
 	if x.typed[key] {
@@ -390,16 +393,10 @@ func (x *Exec) readElem(st *State, elemT types.Type, sl, idx *Term) *Term {
 		x.assumeTypeB(st, v, elemT, node.readBound(slRef(sl), x.job.alloc0))
 	}
 	if !hasFreeBound(idx) {
-		x.addInterest(st, idx)
+		x.addInterest(st, idx, arrKey(arr))
+	} else {
+		x.assumeType(st, v, elemT)
 	}
-	if !hasFreeBound(idx) && !v.isConst() {
-		// ground instance of the at-function axiom: gives quantified contract clauses a term to match
-		_, es := arr.sort.arrayParts()
-		name := "at." + sanitize(es.Name)
-		DeclareFun(name, es, arr.sort, SInt, SInt)
-		x.ctx.assumeGlobal(st, Eq(App(name, es, arr, slOff(sl), idx), v))
-	}
-	x.assumeType(st, v, elemT)
 	return v
 }
 
